@@ -54,6 +54,8 @@ type caseCfg struct {
 	A       cliOpts    `json:"client_a"`
 	B       cliOpts    `json:"client_b"` // visitor side client (only used with stcp / xtcp proxies)
 	Proxies []proxyCfg `json:"proxies"`
+	// GateVisitor: hold frps at the visitor hand-over hook until the user has read the backend's greeting
+	GateVisitor bool `json:"gate_visitor,omitempty"`
 }
 
 var (
@@ -134,7 +136,7 @@ func totalPairs() int {
 			n += pf[i] * pf[j]
 		}
 	}
-	return n - 2 // (srv=1|3, tls=2)
+	return n - 2 - 2 // (srv=1|3, tls=2), (srv=2|3, proto=kcp)
 }
 
 func genCliOpts(rng *rand.Rand) cliOpts {
@@ -182,6 +184,9 @@ func genConns(rng *rand.Rand, p *proxyCfg, thorough bool, passthrough bool) {
 		}
 		if i == 0 {
 			c.Script = "duplex"
+		}
+		if limited && p.LKB <= 32 && c.ALPN > 3 {
+			c.ALPN = 3 // a large ClientHello through a slow limiter only costs wall time
 		}
 		if i == 1 && rng.Intn(2) == 0 {
 			c.Script = []string{"upclose", "downclose"}[rng.Intn(2)]
@@ -263,6 +268,17 @@ func genCases(n int, thorough bool, rngFor func(i int) *rand.Rand, servers []*sr
 				}
 				if cc.B.TLS == 2 {
 					cc.B.TLS = 1
+				}
+			}
+			if !sv.tcpMux {
+				// kcp has no end-of-stream signal of its own; without stream multiplexing a close cannot cross it.
+				// That combination is driven once, by the fixed extra case (kcpNoMuxCase), not by the generated ones.
+				others := []string{"tcp", "quic", "websocket"}
+				if cc.A.Proto == "kcp" {
+					cc.A.Proto = others[rng.Intn(3)]
+				}
+				if cc.B.Proto == "kcp" {
+					cc.B.Proto = others[rng.Intn(3)]
 				}
 			}
 			np := 2 + rng.Intn(2)
